@@ -22,7 +22,22 @@ CFG_MIX = {"values": (3,), "index_values": (1,), "templates": ("mul2", "add", "d
            "unreg": True, "setc": True}
 CFG_MIX_Q = {"values": (3,), "index_values": (1,), "templates": ("mul2", "pick", "total", "dyn"), "unreg": True}
 CFG_REDUCED = {"values": (3,), "templates": ("mul2", "inc"), "unreg": True}
-ALPHABETS = {"nest": CFG_NEST, "mix": CFG_MIX, "mixq": CFG_MIX_Q, "reduced": CFG_REDUCED}
+# gen_fun as an operation of the history (it may leave state behind, e.g. a source cache), small alphabet, deeper
+# right-nested chains with floats for which re-association changes the result
+CFG_ASSOC = {"values": (0.1,), "templates": ("addr", "mulr"), "unreg": False, "call_values": (0.1, 0.2)}
+CFG_GEN = {"values": (3,), "templates": ("mul2",), "unreg": True, "leaves_n": 3}
+ALPHABETS = {"nest": CFG_NEST, "mix": CFG_MIX, "mixq": CFG_MIX_Q, "reduced": CFG_REDUCED, "gen": CFG_GEN, "assoc": CFG_ASSOC}
+
+
+def alphabet_for(world, name):
+    cfg = dict(ALPHABETS[name])
+    n = cfg.pop("leaves_n", None)
+    if n:
+        leaves = world["leaves"][:n]
+        cfg["leaves"] = leaves
+        cfg["sources"] = leaves
+        cfg["extra"] = [("genfun", (L,)) for L in leaves] + [("genfun", tuple(leaves[:2]))]
+    return cfg
 MAXARGS = 3
 
 
@@ -39,7 +54,7 @@ class System(ManagerSystem):
         if any(t.kind != "E" for t in ns.tasks.values()):
             return issues
         full = hist + (self.universe.index(op),)
-        free = [L for L in self.world["leaves"] if ("E", L) not in ns.tasks]
+        free = [L for L in (self.cfg.get("leaves") or self.world["leaves"]) if ("E", L) not in ns.tasks]
         st = self._stats
         for k in range(1, min(self.maxargs, len(free)) + 1):
             for subset in itertools.combinations(free, k):
@@ -88,7 +103,7 @@ class System(ManagerSystem):
                     continue
                 # --- behaviour on every value vector (applied in sequence, so later calls start from non-initial states)
                 mstate = ns
-                for vals in itertools.product((3, 5), repeat=k):
+                for vals in itertools.product(self.cfg.get("call_values", (3, 5)), repeat=k):
                     st["calls"] = st.get("calls", 0) + 1
                     try:
                         fn(*vals)
@@ -125,9 +140,9 @@ def plan(tier, seed):
     seeds = common.seeds_for(tier, seed, quick=(0,), thorough=(0, 1, 2))
     jobs = []
     if tier == "quick":
-        runs = [("W-nest", "reduced", 2), ("W-nest-4", "reduced", 3), ("W-mix", "mixq", 2)]
+        runs = [("W-nest", "reduced", 2), ("W-nest-4", "reduced", 3), ("W-mix", "mixq", 2), ("W-flat", "gen", 4), ("W-flat", "assoc", 2)]
     else:
-        runs = [("W-nest", "nest", 3), ("W-nest-4", "reduced", 4), ("W-mix", "mix", 3)]
+        runs = [("W-nest", "nest", 3), ("W-nest-4", "reduced", 4), ("W-mix", "mix", 3), ("W-flat", "gen", 6), ("W-nest-4", "gen", 5), ("W-flat", "assoc", 3), ("W-nest-4", "assoc", 2)]
     for hs in seeds:
         for wname, alpha, depth in runs:
             jobs.append({"name": f"bfs:{wname}:{alpha}:d{depth}:seed{hs}", "mode": "compiled", "hashseed": hs,
@@ -142,7 +157,7 @@ def plan(tier, seed):
 
 def run_job(job):
     a = job["args"]
-    s = System(WORLDS[a["world"]], ALPHABETS[a["alphabet"]], common.config_info(job))
+    s = System(WORLDS[a["world"]], alphabet_for(WORLDS[a["world"]], a["alphabet"]), common.config_info(job))
     s.maxargs = a.get("maxargs", MAXARGS)
     return common.run_bfs(s, job)
 
